@@ -134,12 +134,14 @@ def exists(lo, hi, f):
     return any(f(i) for i in range(lo, hi))
 
 
-def opaque(ret):
+def opaque(ret, always=False):
     """Spec function whose definition is hidden on unbounded symbolic strings (uninterpreted there),
-    evaluated on bounded/concrete ones; `ret` is "int" | "bool" | "str"."""
+    evaluated on bounded/concrete ones; `ret` is "int" | "bool" | "str" | "path" | "map" | "list:<elem>".
+    always=True: uninterpreted on every symbolic call (the native body only serves the replay / bounded tier)."""
 
     def deco(fn):
         fn.__pyvc_opaque__ = ret
+        fn.__pyvc_opaque_always__ = always
         return fn
 
     return deco
@@ -204,6 +206,30 @@ def _p_fs_read(interp, args, kwargs, env):
 
     g = models.fs_state(interp)
     return sym.sstr(z3.Select(g["fs_content"], _path_term(interp, args[0])))
+
+
+def _p_fs_unchanged(interp, args, kwargs, env):
+    """no file was created, changed or removed since the pre-state"""
+    from . import models
+
+    g = models.fs_state(interp)
+    o = getattr(interp, "old_ghost", None) or {}
+    if "fs_exists" not in o:
+        raise SpecError("fs_unchanged() outside a postcondition")
+    if g["fs_exists"].eq(o["fs_exists"]) and g["fs_content"].eq(o["fs_content"]):
+        return True
+    return sym.sbool(z3.And(g["fs_exists"] == o["fs_exists"], g["fs_content"] == o["fs_content"]))
+
+
+def _p_fs_only_changed(interp, args, kwargs, env):
+    """every path other than the given one has the same existence and content as in the pre-state"""
+    from . import models
+
+    g = models.fs_state(interp)
+    o = getattr(interp, "old_ghost", None) or {}
+    p = _path_term(interp, args[0])
+    return sym.sbool(z3.And(g["fs_exists"] == z3.Store(o["fs_exists"], p, z3.Select(g["fs_exists"], p)),
+                            g["fs_content"] == z3.Store(o["fs_content"], p, z3.Select(g["fs_content"], p))))
 
 
 def _p_json_map(interp, args, kwargs, env):
@@ -312,6 +338,8 @@ PRIMS = {
     "forall": Prim("forall", _quant("forall")),
     "exists": Prim("exists", _quant("exists")),
     "fs_exists": Prim("fs_exists", _p_fs_exists),
+    "fs_unchanged": Prim("fs_unchanged", _p_fs_unchanged),
+    "fs_only_changed": Prim("fs_only_changed", _p_fs_only_changed),
     "fs_read": Prim("fs_read", _p_fs_read),
     "json_map": Prim("json_map", _p_json_map),
     "ymd": Prim("ymd", _p_ymd),
@@ -333,6 +361,14 @@ def fs_read(p):
     import pathlib
 
     return pathlib.Path(str(p)).read_text()
+
+
+def fs_unchanged():
+    raise NotImplementedError("fs_unchanged is symbolic-only (the bounded tier compares directory snapshots)")
+
+
+def fs_only_changed(p):
+    raise NotImplementedError("fs_only_changed is symbolic-only")
 
 
 def json_map(s):
